@@ -240,9 +240,13 @@ enum Act {
     SubAThenDropUnserved,
     PubBThenDropUnserved,
     ConnectThenDropUnserved,
+    /// ONE read of A's link holding a publish on a topic A itself may be subscribed to, followed by the packet that ends the
+    /// connection (0: an unsolicited PUBACK, 1: DISCONNECT) — the batch wakes A's own parked request and closes A
+    BatchPubThenEndA(u8),
 }
 
-const ACTS: [Act; 30] = [
+const ACTS: [Act; 32] = [
+    Act::BatchPubThenEndA(0), Act::BatchPubThenEndA(1),
     Act::SubPlainAndSharedA, Act::SubRefusedA(0), Act::SubRefusedA(1),
     Act::SubAThenDropUnserved, Act::PubBThenDropUnserved, Act::ConnectThenDropUnserved,
     Act::ConnA(true), Act::ConnA(false), Act::ConnB, Act::SubA, Act::SubShareA, Act::PubB(0), Act::PubB(1), Act::PubB(2),
@@ -281,6 +285,12 @@ fn apply(r: &mut Router, a: &mut Option<Client>, b: &mut Option<Client>, act: Ac
         Act::DeviceData(id) => { r.events(id, Event::DeviceData); settle(r); }
         Act::Shadow(id) => { r.events(id, Event::Shadow(ShadowRequest { filter: "t/x".to_owned() })); settle(r); }
         Act::Will => { r.events(0, Event::PublishWill(("a".to_owned(), None))); settle(r); }
+        Act::BatchPubThenEndA(k) => {
+            if let Some(c) = a {
+                let end = if k == 0 { puback(42) } else { Packet::Disconnect(crate::protocol::Disconnect { reason_code: crate::protocol::DisconnectReasonCode::NormalDisconnection }, None) };
+                send(r, c, vec![publish("t/x", k, if k == 0 { 0 } else { 3 }, "own", false), end]);
+            }
+        }
         Act::SubAThenDropUnserved => {
             if let Some(c) = a.take() {
                 c.ibuf.lock().push_back(subscribe(4, &[("t/#", 1)]));
@@ -2390,8 +2400,10 @@ fn will_is_published_once_unless_the_client_said_disconnect() {
                 for subscribers in 0..=2usize {
                     for signals in 1..=2usize {
                         for will_qos in 0..2u8 {
+                          // an empty payload is a payload like any other for the current subscribers; retained, it only stores nothing
+                          for payload in ["gone", ""] {
                             cases += 1;
-                            let desc = format!("will registered: {}, retained will: {}, connection ends by {}, {} matching subscriber(s), PublishWill signalled {} time(s), will QoS {}", has_will, retain, ["link failure", "client DISCONNECT", "router close after an unsolicited PUBACK", "router close after an unsolicited PUBCOMP", "router close WITH a DISCONNECT reason code (SUBSCRIBE carrying subscription identifier 0)"][ending as usize], subscribers, signals, will_qos);
+                            let desc = format!("will registered: {}, will payload {:?}, retained will: {}, connection ends by {}, {} matching subscriber(s), PublishWill signalled {} time(s), will QoS {}", has_will, payload, retain, ["link failure", "client DISCONNECT", "router close after an unsolicited PUBACK", "router close after an unsolicited PUBCOMP", "router close WITH a DISCONNECT reason code (SUBSCRIBE carrying subscription identifier 0)"][ending as usize], subscribers, signals, will_qos);
                             let mut r = new_router();
                             let mut subs = vec![];
                             for i in 0..subscribers {
@@ -2403,7 +2415,7 @@ fn will_is_published_once_unless_the_client_said_disconnect() {
                             let bystander = connect(&mut r, "bystander", true).unwrap();
                             send(&mut r, &bystander, vec![subscribe(1, &[("other/#", 0)])]);
                             let _ = drain(&mut r, &bystander);
-                            let w = if has_will { Some(("will/c", "gone", will_qos, retain)) } else { None };
+                            let w = if has_will { Some(("will/c", payload, will_qos, retain)) } else { None };
                             let c = connect_with_will(&mut r, "c", true, w).unwrap();
                             if said_disconnect {
                                 send(&mut r, &c, vec![Packet::Disconnect(crate::protocol::Disconnect { reason_code: crate::protocol::DisconnectReasonCode::NormalDisconnection }, None)]);
@@ -2431,7 +2443,7 @@ fn will_is_published_once_unless_the_client_said_disconnect() {
                             let expect_will = has_will && !said_disconnect;
                             for (i, s) in subs.iter().enumerate() {
                                 let got = receive_all(&mut r, s);
-                                let exp = if expect_will { vec![("will/c".to_string(), "gone".to_string(), 0u8, false)] } else { vec![] };
+                                let exp = if expect_will { vec![("will/c".to_string(), payload.to_string(), 0u8, false)] } else { vec![] };
                                 if got != exp {
                                     fail = Some(format!("input=[{}] detail=[subscriber {} received {:?}, expected {:?}]", desc, i, got, exp));
                                     break 'outer;
@@ -2446,18 +2458,19 @@ fn will_is_published_once_unless_the_client_said_disconnect() {
                             let late = connect(&mut r, "late", true).unwrap();
                             send(&mut r, &late, vec![subscribe(2, &[("will/#", 0)])]);
                             let got = receive_all(&mut r, &late);
-                            let exp = if expect_will && retain { vec![("will/c".to_string(), "gone".to_string(), 0u8, true)] } else { vec![] };
+                            let exp = if expect_will && retain && !payload.is_empty() { vec![("will/c".to_string(), payload.to_string(), 0u8, true)] } else { vec![] };
                             if got != exp {
                                 fail = Some(format!("input=[{}] detail=[a later subscriber received {:?}, expected {:?}]", desc, got, exp));
                                 break 'outer;
                             }
+                          }
                         }
                     }
                 }
             }
         }
     }
-    report(name, "C16", "will registered or not x retained or not x 5 ways the connection ends (link failure, client DISCONNECT, router close after an unsolicited PUBACK / PUBCOMP, router close with a reason code) x 0..2 matching subscribers x 1..2 PublishWill signals x will QoS 0/1", cases, fail);
+    report(name, "C16", "will registered or not x payload / empty payload x retained or not x 5 ways the connection ends (link failure, client DISCONNECT, router close after an unsolicited PUBACK / PUBCOMP, router close with a reason code) x 0..2 matching subscribers x 1..2 PublishWill signals x will QoS 0/1", cases, fail);
 }
 
 /// C16: "a client without a will never causes one" — also when an EARLIER connection of the same client id had registered
